@@ -61,6 +61,7 @@ type fleetGen struct {
 	msgOwner   map[int]*fgNode
 	binMsgs    []int
 	ultra      bool
+	moderate   bool
 }
 
 func (g *fleetGen) emit(e engine.Event) {
@@ -180,7 +181,7 @@ func (g *fleetGen) aim(n *fgNode) {
 	default:
 		n.centre = 1
 	}
-	if g.prof.moderate {
+	if g.moderate {
 		n.centre = r.LogUniform(1e-4, 1e6)
 	}
 	if n.centre < lo {
@@ -230,7 +231,7 @@ func (g *fleetGen) value(n *fgNode) float64 {
 	}
 	var v float64
 	pick := r.Pick(50, 20, 8, 6, 6, 4, 6)
-	if g.prof.moderate && (pick == 4 || pick == 5) {
+	if g.moderate && (pick == 4 || pick == 5) {
 		pick = 0
 	}
 	switch pick {
@@ -405,6 +406,10 @@ func GenFleet(prof *fleetProfile) func(r *engine.PRNG, run int, tier string) *en
 		}
 		nNodes := r.Range(prof.minNodes, prof.maxNodes)
 		var shared *engine.Node
+		g.moderate = prof.moderate
+		if prof.prop == "C10" && r.Pct(25) {
+			g.moderate = false // values up to the ends of the indexable range: exact sums can overflow
+		}
 		g.ultra = prof.ultrafine && r.Pct(3)
 		if g.ultra {
 			p.Config["ultrafine"] = "1"
